@@ -275,12 +275,32 @@ func trimStack(b []byte) string {
 // Add counts executed cases.
 func (r *Run) Add(n int) {
 	r.mu.Lock()
-	r.evals += int64(n)
+	if !r.recheck {
+		r.evals += int64(n)
+	}
 	r.mu.Unlock()
 }
-func (r *Run) AddStates(n int)      { r.mu.Lock(); r.states += int64(n); r.mu.Unlock() }
-func (r *Run) AddTransitions(n int) { r.mu.Lock(); r.transitions += int64(n); r.mu.Unlock() }
-func (r *Run) AddTraces(n int)      { r.mu.Lock(); r.traces += int64(n); r.mu.Unlock() }
+func (r *Run) AddStates(n int) {
+	r.mu.Lock()
+	if !r.recheck {
+		r.states += int64(n)
+	}
+	r.mu.Unlock()
+}
+func (r *Run) AddTransitions(n int) {
+	r.mu.Lock()
+	if !r.recheck {
+		r.transitions += int64(n)
+	}
+	r.mu.Unlock()
+}
+func (r *Run) AddTraces(n int) {
+	r.mu.Lock()
+	if !r.recheck {
+		r.traces += int64(n)
+	}
+	r.mu.Unlock()
+}
 
 // Tag records a distinct non-trivial case class (distinct_nontrivial = number of tags).
 func (r *Run) Tag(t string) {
@@ -299,6 +319,10 @@ func (r *Run) Sample(v any) {
 func (r *Run) Set(k string, v any) { r.mu.Lock(); r.extra[k] = v; r.mu.Unlock() }
 func (r *Run) Inc(k string, n int64) {
 	r.mu.Lock()
+	if r.recheck {
+		r.mu.Unlock()
+		return
+	}
 	old, _ := r.extra[k].(int64)
 	r.extra[k] = old + n
 	r.mu.Unlock()
